@@ -80,8 +80,10 @@ impl Header {
             + version_bytes.len()
             + self.version.header_len_bytes_len()
             + fmt_dict.len();
+        // The padding always includes the terminating newline, so it is never empty:
+        // when the unpadded length is already aligned, a full block of padding is added
         let rem = len % ALIGN;
-        let pad_len = if rem == 0 { 0 } else { ALIGN - rem };
+        let pad_len = ALIGN - rem;
         assert_eq!((len + pad_len) % ALIGN, 0);
 
         let header_len = fmt_dict.len() + pad_len;
